@@ -463,4 +463,146 @@ theorem nodup_internalProj (n : Int) :
     rw [List.map_map]
     exact nodup_map_of_inj (nodup_range' _ _) (fun x _ y _ h => by simpa using h)
 
+theorem mem_forwardSpans (n : Nat) (h : 1 ≤ n) (s e v : Int) :
+    (s, e, v) ∈ forwardSpans (n : Int) ↔ s = 0 ∧ 1 ≤ e ∧ e ≤ n ∧ v = 0 := by
+  rw [forwardSpans_eq n h]
+  simp only [List.mem_map, List.mem_range, Prod.mk.injEq]
+  constructor
+  · rintro ⟨k, hk, rfl, rfl, rfl⟩; omega
+  · rintro ⟨rfl, h1, h2, rfl⟩
+    exact ⟨((n : Int) - e).toNat, by omega, rfl, by omega, rfl⟩
+
+theorem mem_backwardSpans (n : Nat) (h : 1 ≤ n) (s e v : Int) :
+    (s, e, v) ∈ backwardSpans (n : Int) ↔ 0 ≤ s ∧ s < n ∧ e = n ∧ v = 0 := by
+  rw [backwardSpans_eq n h]
+  simp only [List.mem_map, List.mem_range, Prod.mk.injEq]
+  constructor
+  · rintro ⟨k, hk, rfl, rfl, rfl⟩; omega
+  · rintro ⟨h1, h2, rfl, rfl⟩
+    exact ⟨s.toNat, by omega, by omega, rfl, rfl⟩
+
+theorem mem_immoniumSpans (n : Nat) (s e v : Int) :
+    (s, e, v) ∈ immoniumSpans (n : Int) ↔ 0 ≤ s ∧ s < n ∧ e = s + 1 ∧ v = 0 := by
+  rw [immoniumSpans_eq n]
+  simp only [List.mem_map, List.mem_range, Prod.mk.injEq]
+  constructor
+  · rintro ⟨k, hk, rfl, rfl, rfl⟩; omega
+  · rintro ⟨h1, h2, rfl, rfl⟩
+    exact ⟨s.toNat, by omega, by omega, by omega, rfl⟩
+
+theorem not_forward_of_backward {t : Ion} (h : t.isBackward = true) : t.isForward = false := by
+  cases t <;> simp_all [Ion.isForward, Ion.isBackward, Ion.forwardTypes, Ion.backwardTypes]
+
+theorem not_forward_of_internal {t : Ion} (h : t.isInternal = true) : t.isForward = false := by
+  cases t <;> simp_all [Ion.isForward, Ion.isInternal, Ion.forwardTypes, Ion.internalTypes]
+
+theorem not_backward_of_internal {t : Ion} (h : t.isInternal = true) : t.isBackward = false := by
+  cases t <;> simp_all [Ion.isBackward, Ion.isInternal, Ion.backwardTypes, Ion.internalTypes]
+
+theorem I_unclassified : Ion.I.isForward = false ∧ Ion.I.isBackward = false ∧ Ion.I.isInternal = false := by
+  decide
+
+/-- where an ion of type `t` may be cut in a peptide of length `n` -/
+def SpanOK (n : Int) (t : Ion) (s e : Int) : Prop :=
+  (t.isForward = true ∧ s = 0 ∧ 1 ≤ e ∧ e ≤ n) ∨ (t.isBackward = true ∧ 0 ≤ s ∧ s < n ∧ e = n) ∨
+  (t.isInternal = true ∧ 0 < s ∧ s < e ∧ e < n) ∨ (t = Ion.I ∧ 0 ≤ s ∧ s < n ∧ e = s + 1)
+
+theorem mem_allKeys (j : Job) (ions : List Ion) (k : Key) (hn : 1 ≤ j.annotation.seq.length) :
+    k ∈ allKeys j ions ↔
+      k.ion ∈ ions ∧ SpanOK (alen j.annotation) k.ion k.start k.stop ∧ k.isotope ∈ j.isotopes ∧
+      k.loss ∈ getLosses (slice j.annotation k.start k.stop).seq j.losses j.maxLosses ∧ k.charge ∈ j.charges := by
+  have hl : alen j.annotation = ((j.annotation.seq.length : Nat) : Int) := rfl
+  unfold allKeys SpanOK
+  rw [hl]
+  simp only [List.mem_append, mem_loopKeys, List.mem_filter]
+  constructor
+  · rintro (((⟨⟨s, e, v⟩, hsp, h1, h2, ⟨ht, hf⟩, hiso, hloss, hc⟩ | ⟨⟨s, e, v⟩, hsp, h1, h2, ⟨ht, hf⟩, hiso, hloss, hc⟩) |
+      ⟨⟨s, e, v⟩, hsp, h1, h2, ⟨ht, hf⟩, hiso, hloss, hc⟩) | him)
+    · obtain ⟨rfl, g1, g2, rfl⟩ := (mem_forwardSpans _ hn _ _ _).1 hsp
+      simp only at h1 h2 hloss
+      rw [← h2, ← h1] at hloss
+      exact ⟨ht, Or.inl ⟨hf, h1, by omega, by omega⟩, hiso, hloss, hc⟩
+    · obtain ⟨g0, g1, rfl, rfl⟩ := (mem_backwardSpans _ hn _ _ _).1 hsp
+      simp only at h1 h2 hloss
+      rw [← h2, ← h1] at hloss
+      exact ⟨ht, Or.inr (Or.inl ⟨hf, by omega, by omega, h2⟩), hiso, hloss, hc⟩
+    · obtain ⟨g0, g1, g2, rfl⟩ := (mem_internalSpans _ _ _ _).1 hsp
+      simp only at h1 h2 hloss
+      rw [← h2, ← h1] at hloss
+      exact ⟨ht, Or.inr (Or.inr (Or.inl ⟨hf, by omega, by omega, by omega⟩)), hiso, hloss, hc⟩
+    · split at him
+      · rename_i hI
+        obtain ⟨⟨s, e, v⟩, hsp, h1, h2, ht, hiso, hloss, hc⟩ := (mem_loopKeys _ _ _ _).1 him
+        obtain ⟨g0, g1, rfl, rfl⟩ := (mem_immoniumSpans _ _ _ _).1 hsp
+        simp only at h1 h2 hloss
+        rw [← h2, ← h1] at hloss
+        have ht' : k.ion = Ion.I := by simpa using ht
+        exact ⟨ht' ▸ hI, Or.inr (Or.inr (Or.inr ⟨ht', by omega, by omega, by omega⟩)), hiso, hloss, hc⟩
+      · simp at him
+  · rintro ⟨ht, hspan, hiso, hloss, hc⟩
+    rcases hspan with ⟨hf, h1, h2, h3⟩ | ⟨hf, h1, h2, h3⟩ | ⟨hf, h1, h2, h3⟩ | ⟨hf, h1, h2, h3⟩
+    · exact Or.inl (Or.inl (Or.inl ⟨(k.start, k.stop, 0), (mem_forwardSpans _ hn _ _ _).2 ⟨h1, h2, h3, rfl⟩, rfl, rfl,
+        ⟨ht, hf⟩, hiso, hloss, hc⟩))
+    · exact Or.inl (Or.inl (Or.inr ⟨(k.start, k.stop, 0), (mem_backwardSpans _ hn _ _ _).2 ⟨h1, h2, h3, rfl⟩, rfl, rfl,
+        ⟨ht, hf⟩, hiso, hloss, hc⟩))
+    · exact Or.inl (Or.inr ⟨(k.start, k.stop, 0), (mem_internalSpans _ _ _ _).2 ⟨h1, h2, h3, rfl⟩, rfl, rfl,
+        ⟨ht, hf⟩, hiso, hloss, hc⟩)
+    · refine Or.inr ?_
+      rw [hf] at ht
+      simp only [ht, if_true]
+      exact (mem_loopKeys _ _ _ _).2 ⟨(k.start, k.stop, 0), (mem_immoniumSpans _ _ _ _).2 ⟨h1, h2, h3, rfl⟩, rfl, rfl,
+        by simp [hf], hiso, hloss, hc⟩
+
+theorem nodup_allKeys (j : Job) (ions : List Ion) (hn : 1 ≤ j.annotation.seq.length)
+    (hi : ions.Nodup) (hiso : j.isotopes.Nodup) (hc : j.charges.Nodup) : (allKeys j ions).Nodup := by
+  have hl : alen j.annotation = ((j.annotation.seq.length : Nat) : Int) := rfl
+  have hfil : ∀ p : Ion → Bool, (ions.filter p).Nodup := fun p => List.Nodup.sublist List.filter_sublist hi
+  unfold allKeys
+  rw [hl]
+  have ionOf : ∀ (spans : List Span) (l : List Ion) (k : Key), k ∈ loopKeys j spans l → k.ion ∈ l := by
+    intro spans l k hk
+    obtain ⟨_, _, _, _, ht, _⟩ := (mem_loopKeys _ _ _ _).1 hk
+    exact ht
+  refine nodup_append_of_proj (fun k : Key => k.ion) (fun t => t ≠ Ion.I) ?_ ?_ ?_ ?_
+  · refine nodup_append_of_proj (fun k : Key => k.ion) (fun t => t.isInternal = false) ?_ ?_ ?_ ?_
+    · refine nodup_append_of_proj (fun k : Key => k.ion) (fun t => t.isForward = true) ?_ ?_ ?_ ?_
+      · exact nodup_loopKeys j _ _ (nodup_forwardProj _ hn) (hfil _) hiso hc
+      · exact nodup_loopKeys j _ _ (nodup_backwardProj _ hn) (hfil _) hiso hc
+      · intro k hk; exact (List.mem_filter.1 (ionOf _ _ k hk)).2
+      · intro k hk
+        have := not_forward_of_backward (List.mem_filter.1 (ionOf _ _ k hk)).2
+        simp [this]
+    · exact nodup_loopKeys j _ _ (nodup_internalProj _) (hfil _) hiso hc
+    · intro k hk
+      rcases List.mem_append.1 hk with hk | hk
+      · have hf := (List.mem_filter.1 (ionOf _ _ k hk)).2
+        cases hint : k.ion.isInternal
+        · rfl
+        · rw [not_forward_of_internal hint] at hf; cases hf
+      · have hb := (List.mem_filter.1 (ionOf _ _ k hk)).2
+        cases hint : k.ion.isInternal
+        · rfl
+        · rw [not_backward_of_internal hint] at hb; cases hb
+    · intro k hk
+      simp [(List.mem_filter.1 (ionOf _ _ k hk)).2]
+  · split
+    · exact nodup_loopKeys j _ _ (nodup_immoniumProj _) (by simp) hiso hc
+    · simp
+  · intro k hk hI
+    obtain ⟨h1, h2, h3⟩ := I_unclassified
+    rcases List.mem_append.1 hk with hk | hk
+    · rcases List.mem_append.1 hk with hk | hk
+      · have := (List.mem_filter.1 (ionOf _ _ k hk)).2
+        have hI' : k.ion = Ion.I := hI; rw [hI', h1] at this; cases this
+      · have := (List.mem_filter.1 (ionOf _ _ k hk)).2
+        have hI' : k.ion = Ion.I := hI; rw [hI', h2] at this; cases this
+    · have := (List.mem_filter.1 (ionOf _ _ k hk)).2
+      have hI' : k.ion = Ion.I := hI; rw [hI', h3] at this; cases this
+  · intro k hk
+    split at hk
+    · have := ionOf _ _ k hk
+      simp only [List.mem_singleton] at this
+      simp [this]
+    · simp at hk
+
 end Fragment
